@@ -734,6 +734,8 @@ func extractC15(c *ctxT) {
 	b.WriteString("]\n\n")
 	c.facts["C15.addDepositSteps"] = steps
 
+	c15SdkSteps(c, b)
+
 	b.WriteString("end FxVerif.Gen.C15\n")
 	c.write("C15.lean", b.String())
 }
